@@ -12,7 +12,8 @@
          operation, for that operation's handle; blocks are created free and deleted only when every address they
          still record is being released by the deleting operation;
      (c) every address returned by a completed assign was recorded for the caller's handle by a successful
-         write of that same operation, and is not recorded for anybody else when the call returns;
+         write of that same operation (or, with MaxAllocToHandlePerIPVersion, was read by that operation as already
+         recorded for the handle in a written block), and is not recorded for anybody else when the call returns;
      (d) whenever no operation is in flight and no client has crashed, for every handle and block
          handle.Block[b] = number of ordinals of b owned by the handle. *)
 From Coq Require Import List NArith Bool Arith.
@@ -166,6 +167,8 @@ Definition op_may_take (o : op) (addr : N) (owner : attr) : bool :=
   match o with
   | OpAutoAssign h tag _ => attr_eqb owner {| at_handle := Some h; at_tag := tag |}
   | OpAssignIP h tag a => attr_eqb owner {| at_handle := Some h; at_tag := tag |} && N.eqb a addr
+  | OpAutoAssignM h tag _ _ _ => attr_eqb owner {| at_handle := Some h; at_tag := tag |}
+  | OpAssignIPM h tag a _ _ => attr_eqb owner {| at_handle := Some h; at_tag := tag |} && N.eqb a addr
   | _ => false
   end.
 
@@ -218,7 +221,9 @@ Record ostate := {
   os_opidx : list nat;            (* per client: index of the operation in progress *)
   os_inflight : list bool;        (* per client: has taken a step of its current operation *)
   os_crashed : bool;
-  os_taken : list (list N)        (* per client: addresses its writes allocated during the current operation *)
+  os_taken : list (list N);       (* per client: addresses its writes allocated during the current operation *)
+  os_seen : list (list N)         (* per client (MaxAlloc operations): addresses it has read as recorded for its handle in a
+                                     written block during the current operation *)
 }.
 
 Definition cur_op (c : case) (st : ostate) (i : nat) : option op :=
@@ -247,11 +252,27 @@ Definition returned_ok (cf : config) (st : ostate) (i : nat) (o : op) (r : resul
     | Some x => optN_eqb (at_handle x) (Some h)
     | None => true    (* freed again by a release that ran in between *)
     end in
+  let seen := nth i (os_seen st) [] in
+  (* MaxAlloc: an address may also be one the handle already had, as read from a written block by this operation *)
+  let chkm (h : N) (a : N) := chk h a || existsb (N.eqb a) seen in
   match o, r with
   | OpAutoAssign h _ _, ResIPs ips _ => forallb (chk h) ips
   | OpAssignIP h _ a, ResErr ENone => chk h a
+  | OpAutoAssignM h _ _ _ _, ResIPs ips _ => forallb (chkm h) ips
+  | OpAssignIPM h _ a _ _, ResErr ENone => chkm h a
   | _, _ => true
   end.
+
+Definition op_m_handle (o : option op) : option N :=
+  match o with
+  | Some (OpAutoAssignM h _ _ _ _) | Some (OpAssignIPM h _ _ _ _) => Some h
+  | _ => None
+  end.
+Definition owned_addrs (b : block) (h : N) : list N :=
+  map (fun o => bk_cidr b + N.of_nat o)
+      (filter (fun o => match owner_of b o with
+                        | Some x => optN_eqb (at_handle x) (Some h)
+                        | None => false end) (seq 0 (length (bk_allocs b)))).
 
 Definition is_write (k : okind) : bool := match k with OCreate | OUpdate | ODelete => true | _ => false end.
 
@@ -302,7 +323,16 @@ Definition oracle_step (c : case) (st : ostate) (o : obs) : option ostate :=
     let st1 := {| os_store := d; os_opidx := os_opidx st;
                   os_inflight := set_nth_opt (os_inflight st) i true;
                   os_crashed := os_crashed st || match o_fault o with FCrashBefore | FCrashAfter => true | _ => false end;
-                  os_taken := set_nth_opt (os_taken st) i (nth i (os_taken st) [] ++ taken) |} in
+                  os_taken := set_nth_opt (os_taken st) i (nth i (os_taken st) [] ++ taken);
+                  os_seen :=
+                    match o_kind o, o_key o, op_m_handle opn with
+                    | OGet, Some (KBlock c'), Some h =>
+                        match dlookup (os_store st) (KBlock c') with
+                        | Some (VBlock b) => set_nth_opt (os_seen st) i (nth i (os_seen st) [] ++ owned_addrs b h)
+                        | _ => os_seen st
+                        end
+                    | _, _, _ => os_seen st
+                    end |} in
     (* 2. completed operations (one per step: every operation starts with an access) *)
     let st2 :=
       match o_done o with
@@ -315,7 +345,8 @@ Definition oracle_step (c : case) (st : ostate) (o : obs) : option ostate :=
                            os_opidx := set_nth_opt (os_opidx st1) i (nth i (os_opidx st1) O + length (o_done o))%nat;
                            os_inflight := set_nth_opt (os_inflight st1) i false;
                            os_crashed := os_crashed st1;
-                           os_taken := set_nth_opt (os_taken st1) i [] |}
+                           os_taken := set_nth_opt (os_taken st1) i [];
+                           os_seen := set_nth_opt (os_seen st1) i [] |}
               else None
           | None => None
           end
@@ -339,7 +370,7 @@ Fixpoint oracle_run (c : case) (st : ostate) (os : list obs) : bool :=
 Definition ok_trace (c : case) : bool :=
   let n := length (c_clients c) in
   oracle_run c {| os_store := []; os_opidx := repeat O n; os_inflight := repeat false n;
-                  os_crashed := false; os_taken := repeat [] n |} (c_obs c).
+                  os_crashed := false; os_taken := repeat [] n; os_seen := repeat [] n |} (c_obs c).
 
 Definition check_case (c : case) : bool * bool := (model_agrees c, ok_trace c).
 
